@@ -115,7 +115,7 @@ P["C07"] = ("proof", "C07_parses: for every renderable marker (non-empty compoun
             "identically in every environment; C07_specials: <empty> / '' are the renderings of the empty / universal marker, are special-cased by the parser, and <empty> never occurs inside a larger rendering. Lexeme level: lexing itself is packaging's. "
             "Ties: S-mstr (lexed str(m) vs model; model's parser vs packaging's tree), S-mark; direct oracle re-parses with parse_marker and packaging's Marker and compares truth tables.",
             TB_MARKER + "; Model/MarkerStr.v hand-written, tied by the S-mstr stream; lexing is packaging's", "machine-checked proof in Coq over hand models + correspondence + differential oracle", "5")
-P["C15"] = ("proof", "PARTIAL. Proved over Model/Marker.v for every fuel, set order and merge oracle returning atoms: C15_reachable (with C15_and, C15_or, C15_multi_of_wf, C15_union_of_wf, C15_only, C15_exclude) - every marker reachable from atoms, "
+P["C15"] = ("proof", "PARTIAL. Proved over Model/Marker.v for every fuel, set order and merge oracle returning atoms: C15_reachable (with C15_and, C15_or, C15_multi_of_shaped, C15_union_of_shaped, C15_only, C15_exclude) - every marker reachable from atoms, "
             "the universal and the empty marker through &, |, MultiMarker.of / MarkerUnion.of (what parse_marker folds with), only() and exclude()/without_extras() is well shaped at EVERY depth: the children of each conjunction / disjunction are pairwise "
             "distinct and none of them is a compound of the same kind (invariant carried through all nine mutually recursive functions of the normaliser, the of() loops and flatten_items: Proofs/MarkerInv.v). C15_multi_of / C15_union_of - "
             "MultiMarker.of / MarkerUnion.of return the absorbing marker, the neutral marker, the single marker left (singleton unwrapped) or a compound built from at least two pairwise distinct, non-absorbing processed markers; C15_one_child_refuted "
